@@ -51,6 +51,14 @@ def family(uni, g, g2, alt, sameq=None):
     fam["gen"] = "P%s-gen" % g
     uni.paramset("P" + g2, grp=g2)
     fam["other"] = "P" + g2
+    # equal-but-distinct objects: the same values in another group object / another _Params object / a deep copy.
+    # For the specification these ARE the same parameters: state must restore under them (C10) and reproduce the session
+    if g in TOY_INT:
+        uni.int_group(g + "eq", *TOY_INT[g])
+        uni.paramset("P%s-equal" % g, grp=g + "eq", M=M, N=N, S=S)
+        fam["equal"] = "P%s-equal" % g
+    uni.deepcopy_paramset("P%s-deepcopy" % g, base)
+    fam["deepcopy"] = "P%s-deepcopy" % g
     if sameq:       # a different group with the same subgroup order, the same element size and the same seeds
         uni.paramset("P%s-sameq" % g, grp=sameq, M=M, N=N, S=S)
         fam["sameq"] = "P%s-sameq" % g
@@ -107,11 +115,15 @@ def run(ctx):
     uni.paramset("PEd25519-S", grp="Ed25519", S=b"symmetric'")
     uni.paramset("PEd25519-M", grp="Ed25519", M=b"M'")
     ship.update({"P1024-N": "P1024-N", "PEd25519-S": "PEd25519-S", "PEd25519-M": "PEd25519-M"})
+    # equal-but-distinct parameter objects of the shipped sets (a fresh _Params over the same group; a deep copy)
+    uni.paramset("P1024-equal", grp="I1024")
+    uni.deepcopy_paramset("PEd25519-deepcopy", "PEd25519")
+    ship.update({"P1024-equal": "P1024-equal", "PEd25519-deepcopy": "PEd25519-deepcopy"})
     if thorough:
         t, s = matrix(ctx, uni, mp, ship, None, "shipped")
     else:
         t, s = matrix(ctx, uni, mp, ship, None, "shipped", savekeys=["PEd25519", "P1024", "PEd25519-S"],
-                      restorekeys=["PEd25519", "P1024", "P2048", "P1024-N", "PEd25519-S", "PEd25519-M"])
+                      restorekeys=["PEd25519", "P1024", "P2048", "P1024-N", "PEd25519-S", "PEd25519-M", "P1024-equal", "PEd25519-deepcopy"])
     traces += t
     silent += [("shipped",) + x for x in s]
     # many short-lived parameter sets: each is created, used and DROPPED (so that object identities are recycled); state
@@ -149,7 +161,8 @@ def run(ctx):
     traces.append(r.json())
     ctx.validate(traces, uni, what="restore matrix")
     # a restore that silently yields a different outbound message: F6 iff the sets differ only in the generator
-    for where, scls, sk, rcls, rk, sent, got in silent:
+    for where, scls, sk0, rcls, rk0, sent, got in silent:
+        sk, rk = [{"equal": "base", "deepcopy": "base"}.get(k, k) for k in (sk0, rk0)]   # the same values in another object
         if where != "shipped" and scls == rcls and {sk, rk} & {"gen"} and (sk == "gen") != (rk == "gen") \
                 and ({sk, rk} - {"gen"}) <= ({"base"} | ({"Mdiff", "Ndiff"} if scls == "S" else {"Sdiff"})):
             if "F6" in ctx.known:
